@@ -247,6 +247,10 @@ def oracle_c09(res, r, tier):
             variants.append('%s = %s\n' % (bare, bare) + src + 'def zz_own(long_name):\n    other_name = long_name\n    return %s, other_name\n' % call)
             variants.append(src + 'def zz_glob(long_name):\n    global %s\n    other_name = long_name\n    return %s, other_name\n' % (bare, call))
             variants.append('try:\n    %s\nexcept NameError:\n    %s = None\n' % (bare, bare) + src + 'def zz_try(long_name):\n    other_name = long_name\n    return %s, other_name\n' % call)
+        if bare.isidentifier():
+            # the trigger used inside a class nested in a class whose outer body binds the trigger's name (class bodies are not enclosing scopes)
+            variants.append(src + 'class ZZOuter:\n    def %s(self):\n        return 1\n    class ZZInner:\n        def run(self, long_name):\n            other_name = long_name\n            return %s, other_name\n' % (bare, call))
+            variants.append(src + 'def zz_fn():\n    class ZZOuter:\n        %s = None\n        class ZZInner:\n            attr = %s\n            def run(self, long_name):\n                return %s, long_name\n    return ZZOuter\n' % (bare, call, call))
         variants.append(src + 'def zz_f(long_name):\n    return f"{%s}{long_name}"\n' % call)
         variants.append(src + 'def zz_c(long_name):\n    return [item for item in long_name if %s]\n' % call)
         variants.append(src + 'def zz_w(long_name):\n    if (found := %s):\n        return found, long_name\n' % call)
@@ -319,7 +323,11 @@ def oracle_c10(res, r, tier):
             continue
         pl = [locals_[(i + k) % len(locals_)] for k in range(min(2, len(locals_)))] if locals_ else []
         pg = [globals_[(i + k) % len(globals_)] for k in range(min(2, len(globals_)))] if globals_ else []
+        nonascii_l = [x for x in locals_ if not x.isascii()][:2]
+        nonascii_g = [x for x in globals_ if not x.isascii()][:2]
         forms = [(pl, pg), (pl[0] if pl else None, pg[0] if pg else None), (None, None), (list(pl) + ['not_a_name', 'len'], list(pg) + [''])]
+        if nonascii_l or nonascii_g:
+            forms += [(nonascii_l, nonascii_g), (nonascii_l[0] if nonascii_l else None, nonascii_g[0] if nonascii_g else None)]
         for fl, fg in forms:
             o = dict(scope_leg.RENAME_OPTS, rename_locals=True, rename_globals=True, hoist_literals=(i % 2 == 0), preserve_locals=copy.deepcopy(fl), preserve_globals=copy.deepcopy(fg))
             n += 1
